@@ -57,7 +57,7 @@ CHECKS = {
    note="Faults that never took effect are counted inconclusive. Massive results compared as exact block cover. Heading-root documents are not run in massive mode (known finding of C10)."),
  "C10": dict(level="exploration", design="DESIGN.md §4 C10",
    technique="runtime monitoring under schedule perturbation: massive result compared with the simple result of the same build (exact block cover, multisets, per-root walk order, jail snapshots, error-iff) across GOMAXPROCS values, yielding/slow user I/O and seeded delays at verifPoint hooks with recorded event traces; race detector in the thorough tier",
-   text="2400 (quick) / 20000 (thorough) seeded scenarios - documents with 1-40 roots (some with root blocks beyond 4096 rendered bytes) in every spelling incl. # headings and leading blank lines, a quarter malformed, one of 9 operations each - run once in simple mode and 10-20 times in massive mode (also WithMassive(nil)) under GOMAXPROCS 1/2/4/16 and five perturbation profiles, plus simple/massive pairs with a failing writer; each massive execution must be a permutation of the simple result's root blocks, the same JSON/YAML multiset, the same walk rows with per-root order, the same filesystem and verdict, fail iff simple fails, and never enter the caller's writer from two goroutines at once.",
+   text="1600 (quick) / 20000 (thorough) seeded scenarios - documents with 1-40 roots (some with root blocks beyond 4096 rendered bytes) in every spelling incl. # headings and leading blank lines, a quarter malformed, one of 9 operations each - run once in simple mode and 10-20 times in massive mode (also WithMassive(nil)) under GOMAXPROCS 1/2/4/16 and five perturbation profiles, plus simple/massive pairs with a failing writer; each massive execution must be a permutation of the simple result's root blocks, the same JSON/YAML multiset, the same walk rows with per-root order, the same filesystem and verdict, fail iff simple fails, and never enter the caller's writer from two goroutines at once.",
    note="Only interleavings actually produced are judged. Error texts are not compared. Known finding KF-C10-1: a massive mkdir that fails has already created other roots."),
  "C13": dict(level="exploration", design="DESIGN.md §4 C13",
    technique="runtime monitoring: client-boundary history recorder + porcupine linearizability checker against a sequential specification (the reference model), partitioned by tree; exhaustive small sequential histories, random histories, multi-goroutine histories with hand-off on the race-detector build",
